@@ -631,6 +631,7 @@ void
 qb_ipcs_disconnect(struct qb_ipcs_connection *c)
 {
 	int32_t res = 0;
+	int32_t incomplete = QB_FALSE;
 
 	if (c == NULL) {
 		return;
@@ -639,16 +640,13 @@ qb_ipcs_disconnect(struct qb_ipcs_connection *c)
 		    __func__, c->description, c->state);
 
 	if (c->state == QB_IPCS_CONNECTION_ACTIVE) {
-		c->service->funcs.disconnect(c);
-		c->state = QB_IPCS_CONNECTION_INACTIVE;
-		c->service->stats.closed_connections++;
-
-		/* This removes the initial alloc ref */
-		qb_ipcs_connection_unref(c);
-
-		/* return early as it's an incomplete connection.
+		/* it's an incomplete connection: goes the same way as an
+		 * established one (somebody may hold a reference, so the
+		 * resources stay until the last one is gone), except that
+		 * connection_closed is not called.
 		 */
-		return;
+		incomplete = QB_TRUE;
+		c->state = QB_IPCS_CONNECTION_ESTABLISHED;
 	}
 	if (c->state == QB_IPCS_CONNECTION_ESTABLISHED) {
 		c->service->funcs.disconnect(c);
@@ -665,7 +663,7 @@ qb_ipcs_disconnect(struct qb_ipcs_connection *c)
 			return;
 		}
 		res = 0;
-		if (c->service->serv_fns.connection_closed) {
+		if (!incomplete && c->service->serv_fns.connection_closed) {
 			c->in_closed_cb = QB_TRUE;
 			res = c->service->serv_fns.connection_closed(c);
 			c->in_closed_cb = QB_FALSE;
